@@ -39,4 +39,30 @@ theorem inv_of_closed (c : Cfg) (R : List St) (P : St → Bool) (h : Closed c R 
     simpa using h.1
   exact (List.all_eq_true.1 hP) _ (closed_run c R h sch _ hinit)
 
+/-- the user thread never starts the action -/
+theorem userStep_started (c : Cfg) (s t : St) (l : String) (h : userStep c s = some (t, l)) :
+    t.started = s.started := by
+  unfold userStep at h
+  repeat' split at h
+  all_goals (cases h; try rfl)
+
+/-- all configurations of the repaired code -/
+def fixedCfgs : List Cfg :=
+  [Flavour.plain, .ts].flatMap fun f => [Kind.soon, .rel].flatMap fun k =>
+    [Mode.onLoop, .foreign, .notRunning].map fun m => ⟨f, k, m, .fixed⟩
+
+theorem mem_fixedCfgs (c : Cfg) (h : c.test = .fixed) : c ∈ fixedCfgs := by
+  obtain ⟨f, k, m, t⟩ := c
+  simp only at h; subst h
+  cases f <;> cases k <;> cases m <;> decide
+
+/-- The kernel computes the reachable set of every repaired configuration, checks that it is closed under
+all four actions and that every state in it is safe (no late start, no early start). -/
+theorem fixed_reach_ok : fixedCfgs.all (fun c => Closed c (reach c) && (reach c).all safe) = true := by decide
+
+theorem fixed_safe (c : Cfg) (h : c.test = .fixed) (sch : List Nat) : safe (run c (init c) sch) = true := by
+  have := (List.all_eq_true.1 fixed_reach_ok) c (mem_fixedCfgs c h)
+  simp only [Bool.and_eq_true] at this
+  exact inv_of_closed c (reach c) safe this.1 this.2 sch
+
 end Thr2Aio
